@@ -6,15 +6,19 @@ TB = ("Trusted: Lean 4.33 kernel; axioms propext/Classical.choice/Quot.sound onl
       "executable checker grcv; tools/gen.py (IR and GDL text denote the same program), tools/ttf.py font builder; python harness. ")
 CHECKS = {
  "C01": dict(
-   technique="Lean 4 theorems on the value fragment of the Graphite stack machine (decompiler soundness for all states, constant folding, constant encoding) + decompile-and-compare of the action/constraint code of real output with the source expressions + libgraphite2 runs of one-rule programs; PARTIAL: expressions, constants and slot references",
+   technique="Lean 4 theorems on the value fragment of the Graphite stack machine (decompiler soundness for all states, constant folding, constant encoding) + decompile-and-compare of the action/constraint code of real output with the source expressions + a Lean reference interpreter of the rule language compared with libgraphite2 on the compiled fonts; PARTIAL (substitution tables; no positioning)",
    text=("Proof (partial): Grc.Sem.decomp_sound / decomp_value - for every sequence of value instructions (8/16/32-bit constant pushes, arithmetic, comparison, logic, conditional, slot-attribute, "
          "glyph-attribute, feature reads) and every engine state, execution yields exactly the values of the decompiled expression trees, including when the machine stops (division by zero, INT_MIN/-1); "
          "evalS_fold and evalS_foldC (constant folding, also of conditionals with constant tests, preserves / refines the meaning); decode_encode (every 32-bit integer is pushed back as itself by the "
          "shortest of push_byte/short/long with sign extension). Tie T3: for every rule of every generated program (rules of one pass with different leading contexts => ANY padding, insertions and "
-         "deletions shifting indices, attribute values and item constraints over constants of all sizes, user/glyph attributes of own and other slots, + - * / min max comparisons && || ! ?:) the code in the "
-         "font is decompiled and must equal, after folding, the tree denoted by the source expression with @n turned into (input index of item n) - (reference frame of the item: own input index, for an inserted "
-         "item that of the preceding input item). Tie T2: one-rule programs are shaped by libgraphite2; the user attributes of every slot must equal a direct evaluation of the source expressions."),
-   note=TB + "NOT modelled: the engine's scan/match/advance loop and rule selection (matching is C02, precedence C06), substitution by class correspondence (C04), PutCopy/Assoc offsets (C03/C04), positioning attributes, attachment, feature tests (if) and pass order. The operand conventions of the value instructions are my reading of doc/StackMachineCommands, confirmed by the engine runs; libgraphite2 stores user attributes in 16 bits.",
+         "deletions shifting indices, attribute values and item constraints over constants of all sizes, user/glyph attributes of own and other slots, + - * / min max comparisons && || ! ?:, rules under "
+         "if / elseif / else feature tests) the code in the font is decompiled and must equal, after folding, the tree denoted by the source expression with @n turned into (input index of item n) - "
+         "(reference frame of the item: own input index, for an inserted item that of the preceding input item); the rule constraint must be the conjunction of the enclosing feature tests and the item "
+         "tests. Tie T2: Grc.Eng.shape, a reference interpreter written from the language description (passes in order; left-to-right scan; first matching rule in precedence order with leading "
+         "context and item constraints and feature tests; substitution by class correspondence with selectors, insertion, deletion, @n copies, user attributes in 32-bit arithmetic / 16-bit storage, "
+         "associations, ^), is run on the IR and compared with libgraphite2 on the compiled font: glyph sequence, user attributes, associations, for about 1900 (thorough: 40000) generated texts "
+         "over six program families and feature settings; one-rule programs additionally compare every user attribute with a direct evaluation."),
+   note=TB + "The interpreter is a specification executed against the real engine, not a proved object (one sanity theorem: a pass without rules is the identity). NOT modelled: positioning tables, attachment, justification, line-break items, the MaxRuleLoop counter (runs where a rule application does not advance are reported as outside the fragment and skipped), associations of items deleted without an explicit association (compiler policy). One point follows libgraphite2 rather than the GDL text: @k reads an item's slot as matched if the rule changes its glyph, and in its current state if the rule only sets attributes on it. libgraphite2 stores user attributes in 16 bits.",
    design="4/C01"),
  "C03": dict(
    technique="strict Lean decoders + Lean theorem Code.check_sound (accepted code returns without underflow under every context-item outcome), opcode table regenerated from constants.h; run on real output over the option matrix; libgraphite2 acceptance",
